@@ -634,6 +634,19 @@ fn check_digest_case(case: &Case, ctx: &mut CaseCtx<'_>) -> Result<(), String> {
         ctx.label("independent_states");
     }
     let (a, b) = (&built.a.replicated_keys, &built.b.replicated_keys);
+    // measured, not asserted: a live string whose outer stamp is not its register's stamp (the only
+    // way two different strings could share an outer stamp, i.e. the only way KeyDigest's bytes matter)
+    for v in a.values().chain(b.values()) {
+        if let CrdtValue::Lww(l) = &v.crdt {
+            if l.get().is_some() {
+                ctx.label(if l.timestamp == v.timestamp {
+                    "live_string_outer_stamp_is_register_stamp"
+                } else {
+                    "live_string_outer_stamp_differs_from_register_stamp"
+                });
+            }
+        }
+    }
     let an = check_digest_pair(a, b, depth, 6, ctx, &mut tol)?;
     if an.all_peer_equal {
         ctx.label("equal_states");
@@ -1204,6 +1217,19 @@ fn session_exchange(
     let db = nodes[b].mgr.generate_digest(&b0);
     let hit_a = label_cache_path(&nodes[a], &db, &da, ctx);
     let hit_b = label_cache_path(&nodes[b], &da, &db, ctx);
+    // the combination a generation-based shortcut would get wrong: the cached digest of the peer
+    // has the incoming generation, the peer is not flagged, and the two states differ
+    for (node, incoming) in [(&nodes[a], &db), (&nodes[b], &da)] {
+        let peer = incoming.replica_id;
+        if let Some(k) = node.mgr.peer_digests.get(&peer) {
+            if k.generation == incoming.generation
+                && !node.mgr.divergent_peers.contains(&peer)
+                && da.root_hash != db.root_hash
+            {
+                ctx.label("path:same_generation_not_flagged_but_states_differ");
+            }
+        }
+    }
     let va = nodes[a].mgr.process_peer_digest(db.clone(), &da);
     let vb = nodes[b].mgr.process_peer_digest(da.clone(), &db);
     nodes[a].our_root_at.insert(rb.0, da.root_hash);
@@ -1641,7 +1667,7 @@ fn main() {
         "manager_sessions",
         "2-3 replicas, each with ONE long-lived AntiEntropyManager, through generated event sequences (local writes with on_local_write, replication without it, digest exchanges in both directions, request/response round trips over the manager's queues, partition heal, time): every process_peer_digest verdict against the states themselves, peers_needing_sync/should_sync against flags and times, the round trip against the merge",
     );
-    s.run_cases("manager_sessions", s.scale(6_000, 1_500_000), mcase_strategy, check_session);
+    s.run_cases("manager_sessions", s.scale(20_000, 3_000_000), mcase_strategy, check_session);
 
     s.finish();
 }
